@@ -161,6 +161,18 @@ def expand_model(observations):
     res = []
     for o in observations:
         o = dict(o)
+        # commit entries: [which, snapshot | "="], "=" meaning the snapshot shown last for that database
+        last = {"C": prev.get("chan_c"), "U": prev.get("usage_c")}
+        for part in ("log", "boot"):
+            out = []
+            for e in o.get(part) or []:
+                if e and e[0] in ("C", "U") and len(e) > 1:
+                    if e[1] == "=":
+                        e = [e[0], last[e[0]]]
+                    else:
+                        last[e[0]] = e[1]
+                out.append(e)
+            o[part] = out
         for key in ("chan", "chan_c", "usage", "usage_c"):
             if o.get(key) == "=":
                 o[key] = prev[key]
@@ -206,6 +218,9 @@ def _canon_log(log):
             run.append(e)
         else:
             flush()
+            if e[0] == "U" and len(e) > 1 and isinstance(e[1], dict) and "np" in e[1]:
+                u = e[1]       # (usage rows are compared as sets, like the usage tables of the observation itself)
+                e = ["U", {"np": _sorted_rows(u["np"]), "mb": _sorted_rows(u["mb"]), "cv": _sorted_rows(u["cv"]), "cur": u["cur"]}]
             out.append(e)
     flush()
     return out
